@@ -714,22 +714,49 @@ def rule_parabola(ctx, rid):
     fe = P.func(FE)
     c4 = 'the parabola is fitted through the samples at loc-1, loc, loc+1'
     ex = [e for e in Evaluator(P).run(fe, context={'peak_prom_thresh': None, 'parabolic_extrema': True}) if e.kind == 'return']
+    def seq(t):
+        return list(t[1]) if t[0] in ('tuple', 'list') else None
+
+    def rows_of(yv):
+        """the three rows of the 3 x n ordinate matrix, for the stacking spellings numpy offers"""
+        if yv[0] == 'call' and yv[1] == 'numpy.transpose' and len(yv[2]) == 1 and not yv[3]:
+            yv = ('attr', yv[2][0], 'T')
+        if yv[0] == 'meth' and yv[1] == 'transpose' and not yv[3] and not yv[4]:
+            yv = ('attr', yv[2], 'T')
+        if yv[0] == 'attr' and yv[2] == 'T':
+            inner = yv[1]
+            if inner[0] == 'sub' and inner[1] == ('ref', 'numpy.c_'):
+                return seq(inner[2])
+            if inner[0] == 'call' and inner[1] == 'numpy.column_stack' and len(inner[2]) == 1 and not inner[3]:
+                return seq(inner[2][0])
+            if inner[0] == 'call' and inner[1] == 'numpy.stack' and len(inner[2]) == 1 \
+                    and dict(inner[3]) in ({'axis': C(1)}, {'axis': C(-1)}):
+                return seq(inner[2][0])
+            return None
+        if yv[0] == 'call' and yv[1] in ('numpy.vstack', 'numpy.row_stack', 'numpy.array', 'numpy.asarray') \
+                and len(yv[2]) == 1 and not yv[3]:
+            return seq(yv[2][0])
+        if yv[0] == 'call' and yv[1] == 'numpy.stack' and len(yv[2]) == 1 and dict(yv[3]) in ({}, {'axis': C(0)}):
+            return seq(yv[2][0])
+        return None
     ok = False
+    unread = None
     for e in ex:
         for x in subterms(e.value):
             if x[0] == 'call' and x[1] == CPE:
                 yv = dict(x[3]).get('y')
-                if yv is not None and yv[0] == 'call' and yv[1] == 'numpy.transpose' and len(yv[2]) == 1:
-                    yv = ('attr', yv[2][0], 'T')
-                if yv is not None and yv[0] == 'attr' and yv[2] == 'T' and yv[1][0] == 'sub' \
-                        and yv[1][1] == ('ref', 'numpy.c_'):
-                    parts = yv[1][2][1]
-                    X = S(fe.params[0])
-                    loc = dict(x[3]).get('locs')
-                    ok = len(parts) == 3 and all(pt[0] == 'sub' and pt[1] == X for pt in parts) and \
-                        [alg.poly(pt[2]) - alg.poly(loc) for pt in parts] == [alg.poly(C(-1)), alg.poly(C(0)), alg.poly(C(1))]
+                parts = rows_of(yv) if yv is not None else None
+                if parts is None:
+                    unread = show(yv)[:80] if yv is not None else 'no ordinate argument'
+                    continue
+                X = S(fe.params[0])
+                loc = dict(x[3]).get('locs')
+                ok = len(parts) == 3 and all(pt[0] == 'sub' and pt[1] == X for pt in parts) and \
+                    [alg.poly(pt[2]) - alg.poly(loc) for pt in parts] == [alg.poly(C(-1)), alg.poly(C(0)), alg.poly(C(1))]
     if ok:
         ctx.passed(rid, fe, c4)
+    elif unread:
+        ctx.undecided(rid, fe, c4, 'cannot read the ordinate matrix ' + unread)
     else:
         ctx.violation(rid, fe, c4, 'refinement is not fed with [X[l-1], X[l], X[l+1]]')
 
